@@ -112,15 +112,20 @@ inductive Err where
   | insufficient | distribute | overflow | unsupported
 deriving DecidableEq, Repr
 
+/-- `if !c { return err }`. -/
+def need (c : Bool) (e : Err) : Except Err Unit := if c then .ok () else .error e
+
+/-- the comparison with the previously stored marker (`prevRM != nil`). -/
+def prevBad (m : Marker F) (prev : Option (Marker F)) : Bool :=
+  match prev with
+  | some p => decide (m.client ≠ p.client ∨ m.blobber ≠ p.blobber ∨ m.ctr < p.ctr)
+  | none => false
+
 /-- `ReadMarker.Verify(prevRM)`. -/
-def verify (cr : Crypto F) (m : Marker F) (prev : Option (Marker F)) : Except Err Unit :=
-  if m.ctr ≤ 0 ∨ m.blobber = 0 ∨ m.client = 0 ∨ m.ts = 0 then .error .fields
-  else
-    let prevBad := match prev with
-      | some p => decide (m.client ≠ p.client ∨ m.blobber ≠ p.blobber ∨ m.ctr < p.ctr)
-      | none => false
-    if prevBad then .error .prev
-    else if verifySig cr m then .ok () else .error .sig
+def verify (cr : Crypto F) (m : Marker F) (prev : Option (Marker F)) : Except Err Unit := do
+  need (!decide (m.ctr ≤ 0 ∨ m.blobber = 0 ∨ m.client = 0 ∨ m.ts = 0)) .fields
+  need (!prevBad m prev) .prev
+  need (verifySig cr m) .sig
 
 end
 
@@ -195,9 +200,6 @@ def setBA (bas : List BA) (b : BA) : List BA :=
 
 section
 variable {F : Type} [Mul F] [Zero F] [DecidableEq F]
-
-/-- `if !c { return err }`. -/
-def need (c : Bool) (e : Err) : Except Err Unit := if c then .ok () else .error e
 
 /-- a lookup whose failure is the error `e`. -/
 def getOr {α : Type} (o : Option α) (e : Err) : Except Err α :=
